@@ -1428,6 +1428,8 @@ impl<'a, R: FileManager> FrontendCtx<'a, R> {
             return self.error(&anchor, DiagnosticInfoMessage::TypeArgumentCountMismatch);
         }
 
+        // (lexical scoping of type parameters, as for type aliases)
+        let outer = std::mem::take(&mut self.type_application_stack);
         for (k, v) in type_params.iter().zip(type_args.iter()) {
             self.type_application_stack
                 .push((k.name.sym.to_string(), v.clone()));
@@ -1441,9 +1443,7 @@ impl<'a, R: FileManager> FrontendCtx<'a, R> {
             self.extract_interface_extends(&typ.extends, file.clone())
         };
 
-        for _ in type_params {
-            self.type_application_stack.pop();
-        }
+        self.type_application_stack = outer;
 
         let r = inferred;
 
@@ -1613,13 +1613,14 @@ impl<'a, R: FileManager> FrontendCtx<'a, R> {
                                 .error(anchor, DiagnosticInfoMessage::TypeArgumentCountMismatch);
                         }
 
+                        // type parameters are lexically scoped: inside this declaration only its
+                        // own parameters are visible, not those of the declaration that mentions it
+                        let outer = std::mem::take(&mut self.type_application_stack);
                         for (param, arg) in type_params.into_iter().zip(type_args.iter()) {
                             self.type_application_stack.push((param, arg.clone()));
                         }
                         let runtype = self.extract_type(&decl.type_ann, address.file.clone());
-                        for _ in type_args {
-                            self.type_application_stack.pop();
-                        }
+                        self.type_application_stack = outer;
                         let runtype = runtype?;
                         Ok(self.with_jsdoc(&address.file, declaration_span, runtype))
                     }
